@@ -96,6 +96,10 @@ class Layout:
                 pieces = [(self.put(first), 1)]
             elif vkind == "plain3":
                 pieces = [(self.put(first + "vV"), 3)]
+            elif vkind.startswith("plainN"):
+                k = int(vkind[6:]); pieces = [(self.put(first + "v" * (k - 2) + "V" if k >= 2 else first), k)]
+            elif vkind.startswith("quotedN"):
+                k = int(vkind[7:]); self.put('"'); pieces = [(self.put("q" * k), k)]; self.put('"')
             elif vkind == "quoted0":
                 self.put('"'); pieces = [(len(self.tpl), 0)]; self.put('"')
             elif vkind == "quoted2":
